@@ -114,8 +114,20 @@ def make_case(seed, shard_index, i):
         return None
     via = "agp" if rng.random() < 0.2 else False
     crlf = bool(via) and rng.random() < 0.5
+    # other spellings of the same input text (drawn from a stream of their own)
+    rv = rng_for(seed, "c08-text-variant", shard_index, i)
+    extra = {}
+    if not via and rv.random() < 0.15 and "in:leading-gap" not in labels:
+        via = "tpf"
+        labels.add("null:input-through-tpf-text")
+        if rv.random() < 0.5:
+            extra["tpf_variant"] = "gap-method-column"
+            labels.add("null:tpf-gap-method-column")
+    elif via == "agp" and rv.random() < 0.6:
+        extra["agp_variant"] = rv.choice(["v1.1-gaps", "component-types", "known-length-gaps"])
+        labels.add(f"null:agp-{extra['agp_variant']}")
     return {"kind": "remap", "gen": "null", "t": t, "input": inp, "pretext": pt, "pieces": pieces, "prefix": prefix,
-            "painted": painted, "hapnames": hapnames, "labels": sorted(labels | ({"null:pretext-text-with-crlf"} if crlf else set())), "via_text": via, "pretext_crlf": crlf, "id": [seed, shard_index, i]}
+            "painted": painted, "hapnames": hapnames, "labels": sorted(labels | ({"null:pretext-text-with-crlf"} if crlf else set())), "via_text": via, "pretext_crlf": crlf, "id": [seed, shard_index, i], **extra}
 
 
 def oracle(case, outcome, ctx):
@@ -316,5 +328,8 @@ def gates(c, tier):
         "label:in:gapless-junction": 300,
         "label:in:leading-gap": 300,
         "label:in:trailing-gap": 300,
+        "label:null:input-through-tpf-text": 1000,
+        "label:null:tpf-gap-method-column": 500,
+        "label:null:agp-known-length-gaps": 300,
     }
     return [f"{k}>={v} (got {c.get(k, 0)})" for k, v in need.items() if c.get(k, 0) < v]
